@@ -48,6 +48,10 @@ CHECKS = {
  'C05': ('exploration', 'runtime monitor: reference-model oracle + per-row diff monitor (set of changed (row, field) pairs) over generated UPDATE queries incl. swaps / cycles, NU, joins, ragged tables; JS leg via node',
          'Generated UPDATE queries are executed and both the emitted table and the exact set of changed cells are compared with the model; assignments beyond a short record must fail naming the record and the field; held on the executions observed.',
          'Trusted: rv/model/refsem.py _run_update.', 'DESIGN.md#c05'),
+
+ 'C07': ('exploration', 'runtime monitor: icontract post-conditions on the real query_table (header width = record width, fresh rows, warnings only extended, sources unchanged) + reference naming rules as oracle + the width-enforcing CSV and pandas writers as secondary observers; JS leg via node',
+         'Generated select lists with nested brackets, commas in calls and literals, aliases, stars, DISTINCT COUNT, EXCEPT, GROUP BY, UPDATE, joins are executed with and without input header; header names are compared with the documented rule and header width with every emitted record; held on the executions observed.',
+         'Trusted: rv/model/refsem.py header_names; rectangular tables only (fixed-width select lists).', 'DESIGN.md#c07'),
 }
 
 NOT_YET = 'check not registered yet (machinery under construction; see DESIGN.md section 3a build order)'
